@@ -187,6 +187,20 @@ def r10_2(ctx, fx):
         # the evicted key is the minimum record's address
         rs = guards.rootstrs(fn, c.args[1])
         ctx.ob("R10.2", "AddressStore::insert/evicts-the-minimum-record", any(x.endswith("Iterator::min") for x in rs), site=fn.site(c.node), cfg=fx.cfg, detail="roots: %s" % sorted(rs)[:8])
+    # `min()` means lowest score only if AddressRecord's ordering is the ordering of the scores, in that direction
+    of = ctx.fn(fx, "<transport::manager::address::AddressRecord as std::cmp::Ord>::cmp", "R10.2")
+    if of is not None:
+        cs = [c for c in of.calls(r"cmp::Ord.*::cmp$|::cmp$") if c.dest == [0]]
+        ok = len(cs) == 1 and len(cs[0].args) == 2 and re.match(r"&?_1\b.*\.score$", of.origin(cs[0].args[0])) is not None \
+            and re.match(r"&?_2\b.*\.score$", of.origin(cs[0].args[1])) is not None and "Reverse" not in cs[0].name
+        ctx.ob("R10.2", "AddressRecord::cmp/is-self.score.cmp(other.score)", ok, site=of.site(of.entry), cfg=fx.cfg,
+               detail="origins: %s" % [of.origin(a) for c in cs for a in c.args])
+    pf = ctx.fn(fx, "<transport::manager::address::AddressRecord as std::cmp::PartialOrd>::partial_cmp", "R10.2")
+    if pf is not None:
+        cs = pf.calls(r"AddressRecord as std::cmp::Ord>::cmp$")
+        ok = len(cs) == 1 and re.match(r"&?_1\b", pf.origin(cs[0].args[0])) is not None and re.match(r"&?_2\b", pf.origin(cs[0].args[1])) is not None \
+            and all(x.startswith("Some.call:") and x.endswith("Ord>::cmp") for x in pf.shape({"c": [0]}))
+        ctx.ob("R10.2", "AddressRecord::partial_cmp/is-Some(self.cmp(other))", ok, site=pf.site(pf.entry), cfg=fx.cfg)
     # refusal: new.score < min.score -> return without storing
     def is_new(f, o):
         rs = f.roots(o)
